@@ -189,6 +189,8 @@ def _spec_of(rng, kind):
         return rt.rand_spec_trainable(rng)
     if kind == "sink_tie":
         return rt.spec_sink_tie(rng)
+    if kind == "raw_sinks":
+        return rt.spec_raw_sinks(rng)
     return rt.rand_spec(rng)
 
 
@@ -646,6 +648,16 @@ def sched_case(seed, nsteps=8, spec_kind="random", modes=("MCS", "GENERATIONAL",
         ts_max = rng.choice([6, 8]) / r_sup
         graphs_raw = generate_graphs(run.nodes, ts_max, rng=jax.random.PRNGKey(spec["seed"] % 1000), num_episodes=rng.choice([1, 2]))
         lengths = list(range(int(onp.asarray(graphs_raw.vertices[spec["supervisor"]].seq).shape[0])))
+        dynamic = False
+    elif spec_kind == "raw_sinks":
+        class _Run:
+            pass
+
+        run = _Run()
+        run.nodes = rt.build_nodes(spec)
+        run.sup = run.nodes[spec["supervisor"]]
+        graphs_raw = rt.raw_graph_of(spec)
+        lengths = [0]
         dynamic = False
     else:
         exp = _async_experiment(rng, spec, lengths)
